@@ -146,6 +146,22 @@ pub fn programs(thorough: bool) -> Vec<Program> {
                     observe: vec![K],
                 });
             }
+            // a replacement that is dead on arrival (explicit old timestamp + short TTL: its expiry
+            // instant lies in the past) racing a reader that looked the key up before: whatever
+            // generation a stale-read retry lands on, an expired one is never returned
+            for (rn, r) in [("get", Op::Get(K)), ("range", Op::Range { lo: 0, hi: 1, limit: 10 }), ("incr", Op::Incr { k: K, delta: 1, ts: 0, ttl: 0 }), ("cas", Op::Cas { k: K, expect: kv2, new: kv, ts: 0, ttl: 0 })] {
+                if cache {
+                    continue;
+                }
+                v.push(Program {
+                    name: format!("ttl-dead:nocache{}:{rn}|insert_ttl@20;flush;flush", if two_block { "-2blk" } else { "-1blk" }),
+                    cfg: small(false, true, if two_block { 8 } else { 5 }),
+                    tables: t.clone(),
+                    setup: vec![Op::Insert { k: K, v: kv, ts: 5, ttl: 0, bytes: false }, Op::Flush],
+                    threads: vec![vec![r], vec![Op::Insert { k: K, v: kv2, ts: 20, ttl: 1, bytes: false }, Op::Flush, Op::Flush]],
+                    observe: vec![K],
+                });
+            }
             for (rn, r) in [("get", Op::Get(K)), ("range", Op::Range { lo: 0, hi: 1, limit: 10 })] {
                 v.push(Program {
                     name: format!("ttl-rewrite:{}{}:{rn}|flush;reuse;flush", if cache { "cache" } else { "nocache" }, if two_block { "-2blk" } else { "-1blk" }),
